@@ -213,3 +213,81 @@ Proof.
     rewrite forallb_forall in H2. specialize (H2 _ Hna). cbn [fst snd] in H2.
     destruct (lookup_method model_methods tid n); [left; congruence|right; exact H2].
 Qed.
+
+(* ---------- minMax ---------- *)
+
+(* the same value, or both a failure (which failure is reported first depends on the order of the
+   callback calls and comparisons, which the documented model does not fix) *)
+Definition same_outcome {A} (r1 r2 : res A) : Prop :=
+  match r1, r2 with
+  | Ok a, Ok b => a = b
+  | Ok _, _ | _, Ok _ => False
+  | _, _ => True
+  end.
+
+Lemma same_outcome_fail : forall A (r1 r2 : res A),
+  (forall a, r1 <> Ok a) -> (forall a, r2 <> Ok a) -> same_outcome r1 r2.
+Proof. intros A r1 r2 H1 H2. destruct r1 as [a| | | |]; [exfalso; eapply H1; reflexivity|..]; destruct r2 as [b| | | |]; try exact I; exfalso; eapply H2; reflexivity. Qed.
+
+Definition minmax_spec_from (f : dcb1) (mn mx mni mxi : value) (r : list value) : res value :=
+  bind (mapM f r) (fun ks =>
+    bind (foldP d_pick_min (mn, mni) (combine ks r)) (fun a =>
+    bind (foldP d_pick_max (mx, mxi) (combine ks r)) (fun b =>
+    Ok (minmax_map (fst a) (fst b) (snd a) (snd b) true)))).
+
+Lemma bind_not_ok : forall A B (r : res A) (k : A -> res B), (forall a, r <> Ok a) -> forall b, bind r k <> Ok b.
+Proof. intros A B r k H b. destruct r as [a| | | |]; cbn [bind]; try discriminate. exfalso. eapply H. reflexivity. Qed.
+
+Lemma minMax_from_spec : forall f r mn mx mni mxi,
+  same_outcome (t_minMax_from f mn mx mni mxi (of_list r)) (minmax_spec_from f mn mx mni mxi r).
+Proof.
+  intros f. induction r as [|x r IH]; intros mn mx mni mxi.
+  - reflexivity.
+  - cbn [of_list t_minMax_from]. unfold minmax_spec_from. cbn [mapM].
+    destruct (f x) as [k| | | |] eqn:Ef; cbn [bind]; try exact I.
+    destruct (vless k mn) as [le| | | |] eqn:E1; cbn [bind].
+    + destruct (vless mx k) as [gr| | | |] eqn:E2; cbn [bind].
+      * specialize (IH (if le then k else mn) (if gr then k else mx) (if le then x else mni) (if gr then x else mxi)).
+        unfold minmax_spec_from in IH.
+        destruct (mapM f r) as [ks| | | |]; cbn [bind] in *; try exact IH.
+        cbn [combine foldP]. unfold d_pick_min at 1, d_pick_max at 1. cbn [fst snd]. rewrite E1, E2. cbn [bind].
+        destruct le, gr; exact IH.
+      * apply same_outcome_fail; [discriminate|]. intros b.
+        destruct (mapM f r) as [ks| | | |]; cbn [bind]; try discriminate.
+        cbn [combine foldP]. unfold d_pick_min at 1, d_pick_max at 1. cbn [fst snd]. rewrite E1, E2. cbn [bind].
+        destruct (foldP d_pick_min _ _); cbn [bind]; discriminate.
+      * apply same_outcome_fail; [discriminate|]. intros b.
+        destruct (mapM f r) as [ks| | | |]; cbn [bind]; try discriminate.
+        cbn [combine foldP]. unfold d_pick_min at 1, d_pick_max at 1. cbn [fst snd]. rewrite E1, E2. cbn [bind].
+        destruct (foldP d_pick_min _ _); cbn [bind]; discriminate.
+      * apply same_outcome_fail; [discriminate|]. intros b.
+        destruct (mapM f r) as [ks| | | |]; cbn [bind]; try discriminate.
+        cbn [combine foldP]. unfold d_pick_min at 1, d_pick_max at 1. cbn [fst snd]. rewrite E1, E2. cbn [bind].
+        destruct (foldP d_pick_min _ _); cbn [bind]; discriminate.
+      * apply same_outcome_fail; [discriminate|]. intros b.
+        destruct (mapM f r) as [ks| | | |]; cbn [bind]; try discriminate.
+        cbn [combine foldP]. unfold d_pick_min at 1, d_pick_max at 1. cbn [fst snd]. rewrite E1, E2. cbn [bind].
+        destruct (foldP d_pick_min _ _); cbn [bind]; discriminate.
+    + apply same_outcome_fail; [discriminate|]. intros b.
+      destruct (mapM f r) as [ks| | | |]; cbn [bind]; try discriminate.
+      cbn [combine foldP]. unfold d_pick_min at 1. cbn [fst snd]. rewrite E1. cbn [bind]. discriminate.
+    + apply same_outcome_fail; [discriminate|]. intros b.
+      destruct (mapM f r) as [ks| | | |]; cbn [bind]; try discriminate.
+      cbn [combine foldP]. unfold d_pick_min at 1. cbn [fst snd]. rewrite E1. cbn [bind]. discriminate.
+    + apply same_outcome_fail; [discriminate|]. intros b.
+      destruct (mapM f r) as [ks| | | |]; cbn [bind]; try discriminate.
+      cbn [combine foldP]. unfold d_pick_min at 1. cbn [fst snd]. rewrite E1. cbn [bind]. discriminate.
+    + apply same_outcome_fail; [discriminate|]. intros b.
+      destruct (mapM f r) as [ks| | | |]; cbn [bind]; try discriminate.
+      cbn [combine foldP]. unfold d_pick_min at 1. cbn [fst snd]. rewrite E1. cbn [bind]. discriminate.
+Qed.
+
+(* minMax: the implementation model and the documented model (first item with the minimal / maximal
+   value of f) give the same map, or both fail *)
+Theorem minMax_spec : forall f l, same_outcome (t_minMax f (of_list l)) (d_minMax f l).
+Proof.
+  intros f [|x r]; [reflexivity|]. cbn [of_list t_minMax]. unfold d_minMax. cbn [mapM].
+  destruct (f x) as [k| | | |] eqn:Ef; cbn [bind]; try exact I.
+  pose proof (minMax_from_spec f r k k x x) as H. unfold minmax_spec_from in H.
+  destruct (mapM f r) as [ks| | | |]; cbn [bind] in *; exact H.
+Qed.
